@@ -164,6 +164,13 @@ def build_corpus(tier, rng):
         items.append(("repr-c", Item("E", [Variant(names[i], "unit") for i in range(nv)], repr="C")))
     items.append(("repr-c", Item("E", [Variant("A", "tuple", [Field("u8")]), Variant("B", "unit"), Variant("C", "named", [Field("i32", "a")])], repr="C")))
     items.append(("repr-c", Item("E", [Variant("A", "unit"), Variant("B", "unit", discr=7)], repr="C", dmetas=[DM("name", "Tag")])))
+    # 128-bit integer reprs (no FromRepr for them, but `same #[repr]` holds: layout 16 bytes), alone, with align, with explicit discriminants
+    for rp in ("u128", "i128"):
+        items.append(("repr-128", Item("E", [Variant("A", "unit"), Variant("B", "unit"), Variant("C", "unit")], repr=rp)))
+        items.append(("repr-128", Item("E", [Variant("A", "tuple", [Field("u8")], discr=3), Variant("B", "unit"), Variant("C", "named", [Field("i32", "a")], discr=40)], repr=rp)))
+        it = Item("E", [Variant("A", "unit", discr=1), Variant("B", "unit")], repr=rp, dmetas=[DM("name", "Wide")])
+        it.repr_form = ["align(4)", rp]
+        items.append(("repr-128", it))
     items.append(("lifetime", Item("E", [Variant("B", "tuple", [Field("&'l0 str")]), Variant("O", "named", [Field("G0", "x")]), Variant("N", "unit")],
                                    lifetimes=1, tparams=1, where_clause=True)))
     for fam, it in items:
